@@ -112,7 +112,7 @@ class Build:
         self.failed_at = None
 
 
-def build_props(ctx, prop_v, timeout=1500):
+def build_props(ctx, prop_v, timeout=1500, extra=()):
     """make the dependency cone of Props/Cxx.v (full .vo build) and collect obligations/assumptions."""
     b = Build()
     lock = open(os.path.join(COQ, '.build.lock'), 'w')
@@ -131,7 +131,8 @@ def build_props(ctx, prop_v, timeout=1500):
             pass
         b.cmd = 'make -C coq -j8 %s   (coq_makefile; full .vo build; coqc 8.16.1)' % target
         try:
-            p = subprocess.run(['timeout', str(timeout), 'make', '-j8', target], cwd=COQ, capture_output=True, text=True)
+            p = subprocess.run(['timeout', str(timeout), 'make', '-j8', target] + [e + 'o' for e in extra], cwd=COQ,
+                               capture_output=True, text=True)
             b.log = p.stdout + p.stderr
             b.ok = p.returncode == 0
         except Exception as e:   # pragma: no cover
@@ -410,6 +411,7 @@ def finish(ctx, mod, build, gen_status, out, search=None):
         'samples': out.samples[:8] if out.samples else ['<none>'],
         'input_histogram': out.histogram,
         'model_vs_impl_disagreements': len(out.disagreements),
+        'disagreement_samples': out.disagreements[:6],
         'known_findings_seen': {k: v[0] for k, v in known_seen.items()},
         'exhaustive': bool(out.exhaustive),
         'notes': ctx.notes,
@@ -430,6 +432,8 @@ def finish(ctx, mod, build, gen_status, out, search=None):
         json.dump(ev, f, indent=1, sort_keys=True, default=str)
     for l in lines:
         print(l)
+    if out.corr_error:
+        print('[correspondence error] ' + str(out.corr_error)[-600:])
     print('%s %s: obligations %d/%d, %d evaluations (%d non-trivial), %d disagreements, %d violations, %.1fs -> exit %d' % (
         ctx.pid, ctx.tier, cov['discharged'], cov['obligations'], out.evaluations, out.distinct_nontrivial,
         len(out.disagreements), n_viol, time.time() - ctx.t0, exit_code))
